@@ -225,6 +225,16 @@ pub fn run(tier: Tier) -> i32 {
             }
         }
     }
+    // every bare two- and three-letter tag takes part in both tiers (with the
+    // small region set unless the language is known)
+    for a in 'a'..='z' {
+        for b in 'a'..='z' {
+            let t = format!("{}{}", a, b);
+            if !langs.contains(&t) {
+                langs.push(t);
+            }
+        }
+    }
     // every known language always takes part
     for k in &known_langs {
         if !langs.contains(k) {
@@ -279,6 +289,15 @@ pub fn run(tier: Tier) -> i32 {
                     Ok((code, back)) => {
                         let lang_part = s.split('-').next().unwrap_or("");
                         let lang_known = known_langs.contains(lang_part);
+                        // whatever the library takes for a known tag must map
+                        // back: to itself, or to its bare language part
+                        if code != 0 && back != s && back != lang_part {
+                            vs.push((
+                                format!("tag-to-code-and-back:{}", if back == "und" { "und" } else { "other-tag" }),
+                                format!("from_tag({:?}) has code {} but that code's tag is {:?}", s, code, back),
+                                s.clone(),
+                            ));
+                        }
                         if !lang_known {
                             if code != 0 {
                                 vs.push((
